@@ -470,3 +470,119 @@ def _more_pitfalls(ctx, prop_id, files, by_name):
                 ctx.ob("PARAM-1", f"{fi.qualname}: parameter '{u}' is read", False,
                        f"'{u}' is accepted and never read in the body of {fi.name}; {why}: the caller's value has no effect",
                        fi, fi.node.lineno, alias_exact=True)
+
+
+# ---------------------------------------------------------------------------------------------------------------------
+# MUT-1 (the argument is the caller's object).  A function that is not traced by jit runs on the very objects it was
+# handed: `param[k] = v`, `param[k] *= v`, `param.attr[k] = v` and the in-place operators on a NumPy *view* of such an
+# object (`a = np.asarray(param.attr); a += b` -- asarray / ravel / reshape / .T / a plain attribute read do not copy)
+# change what the caller keeps using after the call.  Used by the checks of the functions whose contract is "computes
+# from its arguments" (the determinant-list readers, rotate_orbs, prep_afqmc); the rule instances are listed there.
+
+_NONCOPY_CALLS = ("asarray", "asanyarray", "ravel", "reshape", "squeeze", "view", "atleast_1d", "atleast_2d", "transpose")
+_INPLACE_METHODS = ("append", "extend", "update", "setdefault", "pop", "clear", "insert", "popitem", "sort", "reverse", "fill",
+                    "remove", "add", "discard")
+
+
+def _root_name(n: ast.AST) -> Optional[str]:
+    while isinstance(n, (ast.Subscript, ast.Attribute)):
+        n = n.value
+    return n.id if isinstance(n, ast.Name) else None
+
+
+def param_mutations(fn: ast.FunctionDef, params: Optional[Set[str]] = None, numpy_views: bool = False,
+                    methods: bool = False) -> List[tuple]:
+    """(line, text, parameter) of every statement of `fn` (nested defs excluded) that changes an object reachable from one
+    of `params` (default: all parameters but self / cls) in place.  numpy_views: also follow local names bound to a
+    non-copying view of such an object and report in-place operators / element stores on them.  methods: also report
+    mutating container methods (append, update, ...) called on a parameter."""
+    a = fn.args
+    allp = {x.arg for x in a.posonlyargs + a.args + a.kwonlyargs} - {"self", "cls"}
+    params = allp if params is None else (set(params) & allp)
+    rebound: Set[str] = set()
+    views: Dict[str, str] = {}
+    same: Dict[str, str] = {}        # local name bound to the parameter object itself (cc = mf_or_cc)
+    out: List[tuple] = []
+
+    def par(r: Optional[str]) -> Optional[str]:
+        if r is None:
+            return None
+        if r in params and r not in rebound:
+            return r
+        return same.get(r)
+
+    def view_of(v: ast.AST) -> Optional[str]:
+        """parameter whose storage the value `v` shares, if that can be read off the expression"""
+        if isinstance(v, ast.Name):
+            if v.id in params and v.id not in rebound:
+                return None          # the object itself, not a view we track as numpy storage
+            return views.get(v.id)
+        if isinstance(v, ast.Attribute):
+            if v.attr == "T":
+                return view_of(v.value)
+            return par(_root_name(v))
+        if isinstance(v, ast.Call):
+            fn_ = (dotted(v.func) or "")
+            last = fn_.split(".")[-1]
+            if last in _NONCOPY_CALLS:
+                if isinstance(v.func, ast.Attribute) and not fn_.startswith(("np.", "numpy.", "jnp.", "jax.")):
+                    return view_of(v.func.value)                 # x.reshape(...), x.ravel()
+                if fn_.startswith(("np.", "numpy.")) and v.args:
+                    return view_of(v.args[0])                    # np.asarray(x)
+            return None
+        return None
+
+    def walk(stmts):
+        for st in stmts:
+            if isinstance(st, (ast.FunctionDef, ast.AsyncFunctionDef, ast.ClassDef)):
+                continue
+            if isinstance(st, ast.Assign):
+                for tg in st.targets:
+                    if isinstance(tg, ast.Name):
+                        v = view_of(st.value) if numpy_views else None
+                        whole = par(st.value.id) if isinstance(st.value, ast.Name) else None
+                        same.pop(tg.id, None)
+                        if whole is not None and tg.id != whole:
+                            same[tg.id] = whole
+                            views.pop(tg.id, None)
+                        elif v is not None:
+                            views[tg.id] = v
+                        else:
+                            views.pop(tg.id, None)
+                            if tg.id in params:
+                                rebound.add(tg.id)
+                    elif isinstance(tg, ast.Subscript):
+                        r = par(_root_name(tg))
+                        if r is not None:
+                            out.append((st.lineno, ast.unparse(tg)[:60] + " = ...", r))
+                        elif numpy_views and isinstance(tg.value, ast.Name) and tg.value.id in views:
+                            out.append((st.lineno, ast.unparse(tg)[:60] + " = ... (a view of " + views[tg.value.id] + ")",
+                                        views[tg.value.id]))
+            elif isinstance(st, ast.AugAssign):
+                tg = st.target
+                if isinstance(tg, ast.Subscript):
+                    r = par(_root_name(tg))
+                    if r is not None:
+                        out.append((st.lineno, ast.unparse(st)[:70], r))
+                    elif numpy_views and isinstance(tg.value, ast.Name) and tg.value.id in views:
+                        out.append((st.lineno, ast.unparse(st)[:70] + " (a view of " + views[tg.value.id] + ")",
+                                    views[tg.value.id]))
+                elif isinstance(tg, ast.Name) and numpy_views and tg.id in views:
+                    out.append((st.lineno, ast.unparse(st)[:70] + f" ({tg.id} shares the storage of {views[tg.id]})", views[tg.id]))
+                elif isinstance(tg, ast.Attribute):
+                    r = par(_root_name(tg))
+                    if r is not None and numpy_views:
+                        out.append((st.lineno, ast.unparse(st)[:70], r))
+            elif isinstance(st, ast.Expr) and methods and isinstance(st.value, ast.Call) and \
+                    isinstance(st.value.func, ast.Attribute) and st.value.func.attr in _INPLACE_METHODS:
+                r = par(_root_name(st.value.func.value))
+                if r is not None:
+                    out.append((st.lineno, ast.unparse(st.value)[:70], r))
+            for fld in ("body", "orelse", "finalbody"):
+                sub = getattr(st, fld, None)
+                if isinstance(sub, list) and sub and isinstance(sub[0], ast.stmt):
+                    walk(sub)
+            for h in getattr(st, "handlers", []) or []:
+                walk(h.body)
+    walk(fn.body)
+    return out
